@@ -326,6 +326,10 @@ def gen_local_cases(rng, tier):
 def gen_cases(rng, tier):
     yield from gen_local_cases(rng, tier)
     yield from gen_cases_stream(rng, tier)
+    # training scripts with a very long log between their reports (appended: the cases above stay the same for a seed)
+    for _ in range(3 if tier == "quick" else 30):
+        yield {"local_backend": True, "seed": rng.randrange(10 ** 9), "n_reports": rng.randint(3, 6), "p_poll": rng.choice([0.3, 1.0]),
+               "long_log": rng.choice([21000, 45000])}
 
 
 def gen_cases_stream(rng, tier):
@@ -535,6 +539,8 @@ def run_local_backend(spec):
                 rep(step=i, loss=rng.randrange(1000) / 8.0)
             pieces.append(("report", buf.getvalue()))
             sent.append(i)
+            if spec.get("long_log") and i == 0:
+                pieces.append(("noise", "batch done\n" * int(spec["long_log"])))   # verbose output between two reports
         path = os.path.join(be.trial_path(0), "std.out")
         open(path, "w").close()
         got_last = []
